@@ -56,7 +56,7 @@ fn expected_frames(model: &Model<'_>, t: &TTrace) -> Vec<TFrame> {
                     Some(x) => Some(x.to_string()),
                     None => None,
                 };
-                out.push(TFrame { class: m.class.to_string(), method: m.method.to_string(), file, line: m.line as u64 });
+                out.push(TFrame { class: m.class.to_string(), method: m.method.to_string(), file, line: m.line as u64, params: None });
             }
         }
     }
